@@ -439,11 +439,25 @@ func runGob(sc *Scenario) *Outcome {
 		out.Counters["roundtrip_zero_receiver"]++
 	}
 	if bs.RecvPrec != 0 {
-		for _, laden := range []bool{false, true} {
+		for laden := 0; laden < 4; laden++ {
 			z := new(decimal.Decimal)
-			if laden {
+			switch laden {
+			case 1:
+				// held a long finite value
 				z.SetPrec(300).SetUint64(math.MaxUint64)
 				z.Mul(z, z)
+			case 2:
+				// an infinity that was a long finite value before
+				z.SetPrec(300).SetUint64(math.MaxUint64)
+				z.Mul(z, z).SetInf(true)
+			case 3:
+				// a zero that was 0.99...9e+MaxExp before (stale mantissa and exponent)
+				w := make([]decimal.Word, 6)
+				for i := range w {
+					w[i] = decimal.Word(wordBase - 1)
+				}
+				z.SetPrec(200).SetBitsExp(w, decimal.MaxExp)
+				z.SetInt64(0)
 			}
 			z.SetMode(decimal.RoundingMode(bs.RecvMode)).SetPrec(uint(bs.RecvPrec))
 			err, pm := safeDecode(z, enc)
